@@ -123,7 +123,7 @@ def ob_install():
         # consumer side: where the Installer writes this entry (DESTDIR empty)
         dest = MI.get_destdir_path('', prefix, ipath)
         if kind == 'headers': dest = dest + '/' + fname[5:]
-        listed = [(k, p, e) for k, d in plan.items() for p, e in d.items()]
+        listed = [(k, getattr(p, 'v', p), e) for k, d in plan.items() for p, e in d.items()]      # .v: a symbolic key stored by the engine in a native dict
         check(len(listed) == 1 and len(inst) == 1, 'exactly the installed entries are listed, nothing else')
         k, p, e = listed[0]
         check(k == kind and decide(bt_any(eq(p, fname))), 'listed under its kind and source path')
